@@ -123,6 +123,12 @@ def gen_case(ch: Chooser, excl=()):
     if "author" in options and ch.bool(1, 2):
         options["author_description"] = "Writes *code* zq0x3w0." + extra
     classes = ["shape:" + shape] + ["opt:" + k for k in options if k not in ("project", "src_dir", "output_dir", "preprocess", "parallel")]
+    mod = next((u for f in proj["files"] for u in f["units"] if u["k"] == "module"), None)
+    if mod is not None and "orphan_submodule" not in excl and ch.bool(1, 6):
+        # a submodule whose parent submodule is not among the sources (its file lives elsewhere)
+        files["src/zz_orphan.f90"] = (f"submodule ({mod['name']}:nowhere_sub) orphan_sm\n  !! zq0x9w0 orphan\n"
+                                      "  integer :: orphan_var\nend submodule orphan_sm\n")
+        classes.append("orphan-submodule")
     if ch.bool(1, 3):
         files.update(gen_pages(ch))
         options["page_dir"] = "./pages"
